@@ -158,7 +158,7 @@ impl Ctx {
         let t = (t as f64 * self.scale) as u64;
         let t = if self.light { t / 8 } else { t };
         if self.miri {
-            return (t / 200).clamp(2, 60).div_ceil(self.nshards).max(1);
+            return (t / 200).clamp(2, 1600).div_ceil(self.nshards).max(1);
         }
         t.div_ceil(self.nshards)
     }
